@@ -424,7 +424,7 @@ Theorem exp_boundary_token im cfg jw t e i : repaired im = true ->
 Proof.
   intros Hr He Hie Hacc.
   destruct (exp_boundary im e Hr He) as [Hb1 Hb2].
-  rewrite accept_conj in *.
+  rewrite accept_conj in Hacc. rewrite !accept_conj.
   apply andb_prop in Hacc. destruct Hacc as [Hps Hc]. rewrite Hps. cbn [andb].
   unfold claims_part in *. cbn [with_times t_iss t_aud t_exp t_iat t_nbf t_sub iss_is exp_claim_ok
     iat_claim_ok nbf_claim_ok] in *.
